@@ -176,8 +176,8 @@ func ParseSnapshotFile(b []byte) ([]SnpEnt, error) {
 
 // Fault describes one injected failure of a directory operation.
 type Fault struct {
-	Op     int    `json:"op"`    // index of the directory operation (0-based, in begin order)
-	Stage  string `json:"stage"` // before | partial | after
+	Op     int    `json:"op"`     // index of the directory operation (0-based, in begin order)
+	Stage  string `json:"stage"`  // before | partial | after
 	Sticky int    `json:"sticky"` // number of further operations of the same kind+id that fail too
 }
 
@@ -468,9 +468,39 @@ func DirListing(path string) (snps, segs []uint64, other []string) {
 type Policy struct {
 	C     *Ctl
 	Inner index.DeletionPolicy
+
+	mu     sync.Mutex
+	inside map[uint64]string // goroutine id -> what it is doing inside the policy
+}
+
+// enter notes that the calling goroutine is inside the policy; another goroutine being inside at the same time
+// is logged (PolicyOverlap): the bundled policy is plain maps and slices and relies on having a single caller.
+func (p *Policy) enter(what string) func() {
+	id := Goid()
+	p.mu.Lock()
+	if p.inside == nil {
+		p.inside = map[uint64]string{}
+	}
+	var others []string
+	for g, w := range p.inside {
+		if g != id {
+			others = append(others, w)
+		}
+	}
+	p.inside[id] = what
+	p.mu.Unlock()
+	if len(others) > 0 {
+		p.C.Log("PolicyOverlap", "what", what, "others", others)
+	}
+	return func() {
+		p.mu.Lock()
+		delete(p.inside, id)
+		p.mu.Unlock()
+	}
 }
 
 func (p *Policy) Commit(s *index.Snapshot) {
+	defer p.enter("Commit")()
 	ids := []uint64{}
 	for _, vs := range s.VerifSegs() {
 		ids = append(ids, vs.ID)
@@ -481,6 +511,7 @@ func (p *Policy) Commit(s *index.Snapshot) {
 
 func (p *Policy) Cleanup(dir index.Directory) error {
 	p.C.GateAt("policy.cleanup")
+	defer p.enter("Cleanup")()
 	p.C.Log("CleanupBegin")
 	err := p.Inner.Cleanup(dir)
 	p.C.Log("CleanupEnd", "err", errStr(err))
